@@ -107,6 +107,8 @@ def inline_into(fns, f, transparent, depth=0, stack=()):
         t = blk["t"]
         g_id = _callee_fn(t) if t["k"] == "call" else None
         untuple = False
+        if g_id is not None and fns[g_id].get("kind") == "closure":
+            g_id = None      # a resolved closure call still has the rust-call ABI: handled below
         if g_id is None and t["k"] == "call":
             # `f(x)` where f is a closure built in this very body (`with_file_at(offset, |file| ..)` once the helper
             # is inlined): <closure as FnOnce<(A,)>>::call_once(closure, (x,))
@@ -318,6 +320,14 @@ def apply(fns, baseline=None):
     if baseline is None:
         baseline = load_baseline()
     transparent = {f["id"] for f in fns if f["name"] not in baseline and "blocks" in f and f.get("kind") != "closure"}
+    # a closure that matches no closure of the same function in the baseline is new, whatever its index: where its
+    # parent calls it directly (`let rebase = |x| ..; rebase(a)`), the call is the closure's body
+    try:
+        import renames
+        with open(BASELINE) as fh:
+            transparent |= renames.new_closures(fns, json.load(fh))
+    except OSError:
+        pass
     if not transparent:
         return {}, transparent
     report = {}
